@@ -75,7 +75,7 @@ func c15Cases(tier string, seed uint64) []fw.Case {
 	progs = append(progs, randomProgs(rng, nprog, 3, 14)...)
 	for i, p := range progs {
 		g := gen.Lower("p", p.AST)
-		vars := assignments(p.NV, 1, rng)[0]
+		vars := zeroData(assignments(p.NV, 1, rng)[0], p.AST)
 		base := step.Case{G: g, Vars: vars, Lenient: hasOr(g)}
 		orders, _ := step.Orders(&base, 1, rng)
 		var o []string
